@@ -61,8 +61,18 @@ Definition user_params_only_read : bool :=
   existsb (fun c => streq (c_func c) "solve" && streq (c_dotted c) "user_params.items") T_calls &&
   existsb (fun c => streq (c_func c) "solve" && streq (c_callee c) "ParameterList") T_calls &&
   existsb (fun c => streq (c_func c) "solve" && streq (c_dotted c) "list" && slist_eq (c_args c) ["projections"]) T_calls.
-Theorem C19_caller_data_untouched : x0_copied_first = true /\ bounds_never_written_in_place = true /\ user_params_only_read = true.
+(* nothing is deleted from the caller's objects, and the only method called on user_params is items() *)
+Definition nothing_deleted_or_mutated : bool :=
+  forallb (fun f => negb (streq (f_func f) "solve" && prefix "del " (f_kind f))) T_flows &&
+  forallb (fun c => negb (prefix "user_params." (c_dotted c)) || streq (c_dotted c) "user_params.items") T_calls.
+(* no state survives a call: the classes of the package have no class-level (shared) attributes *)
+Definition no_shared_class_state : bool := forallb (fun d => negb (prefix "classattr:" (d_kind d))) T_defs.
+Theorem C19_caller_data_untouched : x0_copied_first = true /\ bounds_never_written_in_place = true /\ user_params_only_read = true /\
+  nothing_deleted_or_mutated = true.
 Proof. vm_compute. repeat split; reflexivity. Qed.
+Theorem C19_no_state_shared_between_calls : no_shared_class_state = true.
+Proof. vm_compute. reflexivity. Qed.
 
 Print Assumptions C19_rng_only_under_random_options.
 Print Assumptions C19_caller_data_untouched.
+Print Assumptions C19_no_state_shared_between_calls.
